@@ -324,6 +324,15 @@ Record host_cfg := {
   h_prepare_single : list bytes   (* keys of the path-bound Prepare extensions *)
 }.
 
+(** [resolve_prime]: a result that does not start with "/./" replaces the request URI *)
+Definition primed_path (h : host_cfg) (p : bytes) : bytes :=
+  if h_redirect h then
+    match uri_redirect (h_ext_default h) (h_folder_default h) p with
+    | Some q => q
+    | None => p
+    end
+  else p.
+
 Inductive meth := MGet | MHead | MOther.
 
 Record reply := {
@@ -338,13 +347,7 @@ Record reply := {
 Definition serve (h : host_cfg) (fs : bytes -> option bytes) (m : meth)
     (override : option bytes) (cached : option reply) (p : bytes) : reply * list event :=
   let san := sanitize_path p in
-  (* resolve_prime: a result that does not start with "/./" replaces the request URI *)
-  let p' := if h_redirect h then
-              match uri_redirect (h_ext_default h) (h_folder_default h) p with
-              | Some q => q
-              | None => p
-              end
-            else p in
+  let p' := primed_path h p in
   let ev0 := [ESanitize; EPrime] in
   match cached, san, m with
   | Some r, Ok _, MGet | Some r, Ok _, MHead =>
